@@ -3,6 +3,9 @@
 package main
 
 import (
+	"encoding/json"
+	"errors"
+	"net/url"
 	"context"
 	"fmt"
 	"math/big"
@@ -237,11 +240,43 @@ func runBulkCase(c bulkCase) *bulkRun {
 		bulker := bulking.NewBulker(oc, bulking.WithParallelism(len(c.Ops)+1))
 		// runBulkHTTP creates the result channel inside GetChannels: do the three calls here to hand it to the barrier
 		run.Entries, run.Status, run.RunErr, _ = runBulkHTTPWith(b.ctx, bulker, body, opts, func(recv chan bulking.BulkElementResult) { oc.recv = recv })
+	} else if (c.Now/1000000)%2 == 0 {
+		// every other case goes through the real router: v2.bulkHandler reads the options from the query string
+		// (atomic, continueOnFailure, parallel, schemaVersion) and picks the handler from the content type
+		run.Entries, run.Status, run.RunErr = runBulkRouter(b.st, body, opts)
 	} else {
 		run.Entries, run.Status, run.RunErr, _ = runBulkHTTPWith(b.ctx, bulking.NewBulker(b.ctrl), body, opts, nil)
 	}
 	run.After = b.snap()
 	return run
+}
+
+func runBulkRouter(st *Stack, body string, opts bulking.BulkingOptions) (entries []BulkAPIResult, status int, runErr error) {
+	q := url.Values{}
+	if opts.Atomic {
+		q.Set("atomic", "true")
+	}
+	if opts.ContinueOnFailure {
+		q.Set("continueOnFailure", "true")
+	}
+	if opts.SchemaVersion != "" {
+		q.Set("schemaVersion", opts.SchemaVersion)
+	}
+	path := "/v2/l1/_bulk"
+	if len(q) > 0 {
+		path += "?" + q.Encode()
+	}
+	resp := newHTTPAPI(st).do("POST", path, nil, body)
+	var r struct {
+		Data []BulkAPIResult `json:"data"`
+	}
+	if err := json.Unmarshal(resp.Body, &r); err != nil {
+		return nil, resp.Code, fmt.Errorf("response does not parse: %w", err)
+	}
+	if resp.Code >= 400 && r.Data == nil {
+		return nil, resp.Code, errors.New("bad request: " + string(resp.Body))
+	}
+	return r.Data, resp.Code, nil
 }
 
 func (r *bulkRun) implSx() string {
